@@ -114,11 +114,23 @@ def check(chk, repo):
            f"module-level tables {sorted(mutable_tables)} are never written at run time", True)
     # (iii) nondeterminism
     n_clock = 0
+    def via_caller(f):
+        """A private helper is analysed inside the public functions it is inlined into (a clock value may be handed
+        to it or returned by it on its way to the logger)."""
+        return f.name.startswith("_") and not f.name.startswith("__") and ".<locals>." not in f.name and any(
+            f.fq in eff.inlined_walker(g).inlined for g in reach if g is not f and not g.name.startswith("_"))
+    seen_clock = set()
     for fi in reach:
-        for ev in eff.nondet_calls(fi):
+        if via_caller(fi):
+            continue
+        for ev in eff.nondet_calls(fi, inlined=True):
             name = ev.target[1] if ev.target[0] == "mod" else show(ev.target)
+            key = (ev.fn.fq, getattr(ev.node, "lineno", 0), getattr(ev.node, "col_offset", 0), name)
+            if key in seen_clock:
+                continue
+            seen_clock.add(key)
             if name.startswith("time."):
-                ok, where = eff.flows_only_to_logger(fi, ev)
+                ok, where = eff.flows_only_to_logger(fi, ev, inlined=True)
                 n_clock += 1
                 rep.ev("DET-clock", ev, ok, "" if ok else f"a clock value reaches '{where}' (not only the logger)")
             else:
